@@ -5,7 +5,7 @@
 package coalesce
 
 // Every function under contract in this package also serves the properties that depend on the whole package.
-//@ package-props C01 C04 C05 C08 C11
+//@ package-props C01 C04 C05 C08 C11 C12
 
 //@ flagchan Queue.closed
 
@@ -37,6 +37,7 @@ package coalesce
 //@ func NewQueue
 //@   props C11 C12
 //@   ensures fresh(res0) && QStable(res0) && QInv(res0) && len(res0.queue) == 0 && !closed(res0.closed)
+//@   ensures [wake-up-token-is-kept C11] chancap(res0.inserted) == 1 && chancap(res0.closed) == 0
 
 // old(...) below is the state at the moment the mutex was acquired.
 //@ func (*Queue).insert
